@@ -1,7 +1,7 @@
 #!/bin/bash
 # runs every registered quick (or thorough) check in turn and prints one line each
 tier=${1:-quick}
-cd /verif
+cd "$(dirname "$0")/.."
 for p in $(jq -r '.checks[].property_id' MANIFEST.json); do
   s=$(date +%s.%N)
   out=$(./check $p --tier $tier 2>&1); code=$?
